@@ -19,6 +19,9 @@ use tokio::sync::Notify;
 
 /// Liveness bound (virtual ms) for close() once nothing obliges it to wait.
 pub const LIVENESS_MS: u64 = 60_000;
+/// A planned close() that has not returned this long (virtual ms) after it
+/// was requested is abandoned by the harness.
+pub const PLANNED_CLOSE_LIMIT_MS: u64 = 600_000;
 /// Whole-run watchdog (virtual ms).
 pub const RUN_WATCHDOG_MS: u64 = 3_600_000;
 
@@ -158,9 +161,26 @@ async fn controller(
             world.log(Ev::ServerDropped, NOCONN, 0, 0, 0);
         } else {
             world.log(Ev::CloseRequested, NOCONN, 0, 0, 0);
-            let r = s.close().await;
-            world.log(Ev::CloseReturned, NOCONN, 0, u64::from(r.is_err()), 0);
-            out.planned_close = Some(r);
+            // Every client script ends within PLANNED_CLOSE_LIMIT_MS; a
+            // close() still pending after that is a hang (judged by the
+            // oracle from the missing CloseReturned event).
+            match tokio::time::timeout(ms(PLANNED_CLOSE_LIMIT_MS), s.close()).await {
+                Ok(r) => {
+                    world.log(Ev::CloseReturned, NOCONN, 0, u64::from(r.is_err()), 0);
+                    out.planned_close = Some(r);
+                }
+                Err(_) => {
+                    // Connectors gated on the close never start.
+                    drop(gate_closed);
+                    drop(gate_restarted);
+                    finish.notified().await;
+                    for w in waiters {
+                        w.abort();
+                    }
+                    out.final_close = Some(Ok(()));
+                    return out;
+                }
+            }
         }
         let _ = gate_closed.send(true);
         if sd.restart {
@@ -430,10 +450,18 @@ pub fn run_plan(plan: &Plan) -> Outcome {
         let co = match tokio::time::timeout(ms(RUN_WATCHDOG_MS), ctl).await {
             Ok(Ok(co)) => co,
             Ok(Err(e)) => {
-                if harness_error.is_none() {
+                // The controller only calls the server's own close()/drop
+                // paths: a panic there is the server's (e.g. close() finding
+                // the accept-loop task already dead), reported through the
+                // panic log and the failed close.
+                if !e.is_panic() && harness_error.is_none() {
                     harness_error = Some(format!("controller failed: {}", e));
                 }
-                ControllerOut { planned_close: None, final_close: None, final_close_ms: 0 }
+                ControllerOut {
+                    planned_close: None,
+                    final_close: Some(Err(format!("close() panicked: {e}"))),
+                    final_close_ms: 0,
+                }
             }
             Err(_) => ControllerOut {
                 planned_close: None,
